@@ -117,3 +117,16 @@ func init() {
 		},
 	})
 }
+
+func init() {
+	register(&Property{
+		ID: "C17", Title: "HTTP status mapping, meta limits, CORS",
+		Explanation: "tbd",
+		Rules: []Rule{
+			{Name: "TABLE/errorStatus", Min: 15, Run: ruleErrorStatus, Doc: "error code to status table, by constant propagation per code"},
+			{Name: "TABLE/status-interval", Min: 2, Run: ruleStatusInterval, Doc: "meta status window 300..599"},
+			{Name: "TABLE/protected", Min: 7, Run: ruleProtectedHeaders, Doc: "protected headers, Set-Cookie accumulation"},
+			{Name: "DOM/canonicalize", Min: 2, Run: ruleCanonicalize, Doc: "decoders canonicalise every meta they return"},
+		},
+	})
+}
